@@ -355,18 +355,22 @@ def _abs(a, *k, **kw):
 
 
 def _isclose_scalar(a, b, rtol, atol):
+    """numpy: |a - b| <= atol + rtol * |b|  (complex modulus for complex operands)"""
     a = Sym.of(a)
     b = Sym.of(b)
     d = a - b
-    if d.isreal() and b.isreal():
-        lhs = abs(d)
-        rhs = Sym.of(atol) + Sym.of(rtol) * abs(b)
+    rt = Sym.of(rtol)
+    if rt.is_const() and rt.cval() == 0:
+        rhs = Sym.of(atol)
     else:
-        # |a-b| <= atol + rtol|b| with complex modulus: compare squares when rhs constant
-        lhs = abs(d)
-        rhs = Sym.of(atol) + Sym.of(rtol) * abs(b)
-    r = lhs <= rhs
-    return r
+        rhs = Sym.of(atol) + rt * abs(b)
+    if d.isreal():
+        return abs(d) <= rhs
+    # complex: re^2 + im^2 <= rhs^2 (rhs >= 0), exact and free of square roots
+    sq = d.re_sym() * d.re_sym() + d.im_sym() * d.im_sym()
+    r = (sq <= rhs * rhs)
+    nonneg = rhs >= 0
+    return SBool.of(r) & SBool.of(nonneg)
 
 
 def _isclose(a, b, rtol=1e-05, atol=1e-08, equal_nan=False):
@@ -534,7 +538,14 @@ def _inv(a):
     return out.view(SymNd)
 
 
+def _conj(a, **kw):
+    if isinstance(a, np.ndarray):
+        return _map(lambda x: x.conjugate(), a)
+    return Sym.of(a).conjugate()
+
+
 OVERRIDES = {
+    np.conjugate: _conj, np.conj: _conj,
     np.where: _where, np.any: _any, np.all: _all, np.abs: _abs, np.absolute: _abs,
     np.isclose: _isclose, np.allclose: _allclose, np.array_equal: _array_equal,
     np.sqrt: _sqrt, np.log: _log, np.maximum: _maximum, np.minimum: _minimum,
@@ -634,7 +645,18 @@ class NpProxy(types.ModuleType):
         self.linalg = _LinalgProxy()
 
     def __getattr__(self, n):
-        return getattr(np, n)
+        f = getattr(np, n)
+        ov = OVERRIDES.get(f) if callable(f) else None
+        if ov is None:
+            return f
+
+        def wrapped(*a, **kw):
+            # numpy dispatches on SymNd arguments by itself; bare symbolic scalars need help
+            if any(type(x) is Sym or isinstance(x, SBool) for x in a) or any(type(x) is Sym for x in kw.values()):
+                return ov(*a, **kw)
+            return f(*a, **kw)
+        wrapped.__name__ = n
+        return wrapped
 
     def _mk(self, r):
         if MODE["symbolic"] and isinstance(r, np.ndarray) and r.dtype.kind in "fc":
